@@ -90,7 +90,7 @@ func ReadUtcTime(reader Asn1Reader) (*time.Time, error) {
 	if err != nil {
 		return nil, err
 	}
-	lastUpdateUtcBytes, err := ReadExpectedBytes(reader, int(lastUpdateUtcTag.Length.Length.Int64()))
+	lastUpdateUtcBytes, err := ReadValueBytesWithLimit(reader, *lastUpdateUtcTag, maxPrimitiveValueLength)
 	if err != nil {
 		return nil, err
 	}
@@ -110,7 +110,7 @@ func ParseBitString(reader Asn1Reader) (*BitString, error) {
 	if err != nil {
 		return nil, err
 	}
-	readBytes, err := ReadExpectedBytes(reader, int(tagLength.Length.Length.Int64()))
+	readBytes, err := ReadValueBytesWithLimit(reader, *tagLength, maxPrimitiveValueLength)
 	if err != nil {
 		return nil, err
 	}
@@ -138,7 +138,7 @@ func ParseOctetString(reader Asn1Reader) (ret []byte, err error) {
 	if err != nil {
 		return nil, err
 	}
-	return ReadExpectedBytes(reader, int(tagLength.Length.Length.Int64()))
+	return ReadValueBytesWithLimit(reader, *tagLength, maxPrimitiveValueLength)
 }
 
 func ParseUTCTime(bytes []byte) (*time.Time, error) {
@@ -184,6 +184,19 @@ func ReadStruct(reader Asn1Reader, value interface{}) error {
 		return errors.New("trailing data after asn1 object")
 	}
 	return nil
+}
+
+// maxPrimitiveValueLength is the maximum length accepted for values of primitive types (times, integers, bit and octet strings).
+// The length field is controlled by the sender of the data and must not be used for an allocation unchecked
+const maxPrimitiveValueLength = 81920
+
+// ReadValueBytesWithLimit reads the value bytes of a tlv record whose tag and length were already read
+func ReadValueBytesWithLimit(reader Asn1Reader, tagLength TagLength, maxLength int64) ([]byte, error) {
+	err := ExpectLengthNotGreater(big.NewInt(maxLength), &tagLength.Length.Length)
+	if err != nil {
+		return nil, err
+	}
+	return ReadExpectedBytes(reader, int(tagLength.Length.Length.Int64()))
 }
 
 func ReadTVLBytesWithLimit(reader Asn1Reader, tagLength TagLength, maxLength int64) ([]byte, error) {
@@ -378,7 +391,7 @@ func ReadBigInt(reader Asn1Reader) (*big.Int, error) {
 	if err != nil {
 		return nil, err
 	}
-	readBytes, err := ReadExpectedBytes(reader, int(tagLength.CalculateValueLength().Int64()))
+	readBytes, err := ReadValueBytesWithLimit(reader, *tagLength, maxPrimitiveValueLength)
 	if err != nil {
 		return nil, err
 	}
